@@ -398,6 +398,76 @@ func CutAtoms(p *Program, fn *ssa.Function, re *regexp.Regexp, atomVal bool) (Ed
 			cut[Edge{b, 1}] = true
 		}
 	}
+	// the same test wrapped in a predicate helper (`return a == x || a == y`, expanded into fn):
+	// the branch is then on a merge of booleans. The side of that branch on which the merge is
+	// true (false) implies the tested fact if every way the merge gets that value does: a constant
+	// that arrives over an edge already cut, or a comparison that matches itself.
+	for changed := len(cut) > 0; changed; {
+		changed = false
+		for _, b := range fn.Blocks {
+			if len(b.Instrs) == 0 {
+				continue
+			}
+			ifi, ok := b.Instrs[len(b.Instrs)-1].(*ssa.If)
+			if !ok {
+				continue
+			}
+			v, neg := ifi.Cond, false
+			for {
+				u, ok := v.(*ssa.UnOp)
+				if !ok || u.Op != token.NOT {
+					break
+				}
+				neg, v = !neg, u.X
+			}
+			ph, ok := v.(*ssa.Phi)
+			if !ok || len(ph.Edges) != len(ph.Block().Preds) {
+				continue
+			}
+			for _, want := range []bool{true, false} { // the value of the merge that is to imply the fact
+				okAll, some := true, false
+				for i, e := range ph.Edges {
+					pred := ph.Block().Preds[i]
+					if cv, isC := ConstBool(e); isC {
+						if cv != want {
+							continue // this way the merge has the other value
+						}
+						// arrives with the wanted value: only over an edge that is already cut
+						arrivesCut := false
+						for k, sc := range pred.Succs {
+							if sc == ph.Block() && cut[Edge{pred, k}] {
+								arrivesCut = true
+							}
+						}
+						if !arrivesCut {
+							okAll = false
+						}
+						some = true
+						continue
+					}
+					a, wt := c.CondAtom(e)
+					// e == want  =>  atom == (wt == want) ; must be atomVal
+					if re.MatchString(a) && (wt == want) == atomVal {
+						some = true
+						continue
+					}
+					okAll = false
+				}
+				if !okAll || !some {
+					continue
+				}
+				// branch side on which the merge has the value `want`
+				k := 0
+				if want == neg {
+					k = 1
+				}
+				if !cut[Edge{b, k}] {
+					cut[Edge{b, k}] = true
+					changed = true
+				}
+			}
+		}
+	}
 	return cut, matched
 }
 
